@@ -43,7 +43,7 @@ func init() {
 		Rule: "cells (transport, step, kind): transport in {udp, tcp, tcp+pipeline, tls, tls+pipeline, http, https(h2), quic via NewUpstream; ctor-pipeline, ctor-reuse via exported constructors + fault-injecting DialContext}; " +
 			"step/kind in {dial: refuse | never-completes | tls-stall | accept-and-silent; after-write (first query on a fresh connection): silent | half frame | garbage frame | FIN | RST; mid-reply: stall | FIN | RST | garbage; " +
 			"idle (between two exchanges, 1-4 pooled connections): FIN | RST | garbage | half frame | silent; waiters (20 exchanges on one multiplexed connection): FIN | RST | garbage}; cells that make no sense for a transport are skipped and counted. " +
-			"Plus connection churn (server ends a connection by FIN / RST / half close after its 40th-80th reply while 12 callers keep exchanging; also with a connection whose Close takes 25 ms: every exchange must succeed in time), pooled one-at-a-time connections reused at the moment their 30 ms idle timer fires (24 callers pausing 25-35 ms, Close takes 300 us) and the UDP-to-TCP fallback (TC=1, TCP side silent / garbage / close / slow / refuse, deadlines 300-900 ms). Quick runs every cell once, thorough 30 times with jittered deadlines and delays. One evaluation = one exchange judged by T1 (+ T2/T3/T4 where the cell says so). Distinct non-trivial cases = distinct tuples (transport, step, kind, stale connections, outcome class of the judged exchange)",
+			"Plus connection churn (server ends a connection by FIN / RST / half close after its 40th-80th reply while 12 callers keep exchanging; also with a connection whose Close takes 25 ms: every exchange must succeed in time), pooled one-at-a-time connections reused at the moment their 30 ms idle timer fires (24 callers pausing 25-35 ms, Close takes 300 us), bursts of 7-20 concurrent exchanges followed by silence beyond the idle time-out and one more exchange, a pooled pipelined connection that goes silent while a query is written to it every 40 ms (idle time-out 300 ms), and the UDP-to-TCP fallback (TC=1, TCP side silent / garbage / close / slow / refuse, deadlines 300-900 ms). Quick runs every cell once, thorough 30 times with jittered deadlines and delays. One evaluation = one exchange judged by T1 (+ T2/T3/T4 where the cell says so). Distinct non-trivial cases = distinct tuples (transport, step, kind, stale connections, outcome class of the judged exchange)",
 		Run: runC14})
 }
 
@@ -745,6 +745,8 @@ func runC14(c *Ctx) {
 	go func() { defer close(exDone); c14Exhaust(c) }()
 	c14Churn(c)
 	c14IdleEdge(c)
+	c14BurstThenIdle(c)
+	c14SilentStall(c)
 	c14Fallback(c)
 	<-exDone
 	type cand struct {
